@@ -46,12 +46,36 @@ func c18Profile() Profile {
 	return p
 }
 
-func genC18(t *rapid.T) WorldCase {
+// C18Case: a cluster state, optionally followed by a short history (the auth-proxy port
+// bookkeeping is state carried from one sync to the next).
+type C18Case struct {
+	Params  ctlsim.Params `json:"params"`
+	Objs    []*world.Obj  `json:"objs"`
+	Batches [][]world.Op  `json:"batches,omitempty"`
+}
+
+var c18Kinds = []string{world.KIngress, world.KIngress, world.KIngress, world.KIngress, world.KEndpoints, world.KService, world.KConfigMap}
+
+func genC18(t *rapid.T) C18Case {
 	g := newG(t, c18Profile())
 	g.genWorld()
-	c := WorldCase{Params: ctlsim.Params{Shards: rapid.SampledFrom([]int{0, 0, 2}).Draw(t, "shards")}}
+	c := C18Case{Params: ctlsim.Params{Shards: rapid.SampledFrom([]int{0, 0, 2}).Draw(t, "shards")}}
 	for _, o := range g.W.List() {
 		c.Objs = append(c.Objs, o.Clone())
+	}
+	if chanceT(t, "history", 40) {
+		nb := g.intn("nbatches", 1, sizeScale(5, 8))
+		for b := 0; b < nb; b++ {
+			var ops []world.Op
+			for i, n := 0, g.intn("nops", 1, 3); i < n; i++ {
+				if op, ok := g.genOp(c18Kinds); ok {
+					ops = append(ops, world.Op{Op: op.Op, Obj: op.Obj.Clone()})
+				}
+			}
+			if len(ops) > 0 {
+				c.Batches = append(c.Batches, ops)
+			}
+		}
 	}
 	return c
 }
@@ -74,11 +98,22 @@ const sigFrontendHostScoped = "C18:frontend-placement-is-host-scoped"
 func ingressesOfHost(w *world.World, p ctlsim.Params, host string) []*world.Obj {
 	var out []*world.Obj
 	for _, o := range sortedIngresses(w, p) {
+		uses := false
 		for _, r := range o.Rules {
 			if strings.ToLower(r.Host) == host {
-				out = append(out, o)
-				break
+				uses = true
 			}
+		}
+		// an ingress that only lists the host under spec.tls also contributes its host-scoped annotations
+		for _, t := range o.TLS {
+			for _, h := range t.Hosts {
+				if strings.ToLower(h) == host {
+					uses = true
+				}
+			}
+		}
+		if uses {
+			out = append(out, o)
 		}
 	}
 	return out
@@ -110,27 +145,24 @@ func frontendConflict(w *world.World, p ctlsim.Params, host string, ing *world.O
 
 var denyingKeys = []string{"auth-url", "oauth", "auth-type", "auth-secret", "allowlist-source-range", "whitelist-source-range", "denylist-source-range", "limit-rps", "limit-connections", "auth-tls-secret", "waf"}
 
-func execC18(c WorldCase) *Failure {
-	st := getStats("C18")
-	w := world.FromList(c.Objs)
-	s, steps, err := freshSim(c.Params, c.Objs)
-	if err != nil {
-		panic(err)
-	}
-	defer s.Close()
-	if e := stepErrors(steps); e != nil {
-		return failf("C18:update-error", "update failed: %v", e)
-	}
+// c18Result summarises one evaluation of the written configuration.
+type c18Result struct {
+	protectedReqs, unprotectedReqs, incon, dishonoured int
+	hasProtected, hasUnprotected                       bool
+}
+
+// c18Eval evaluates the configuration the controller has written for the cluster state objs.
+func c18Eval(s *ctlsim.Sim, objs []*world.Obj, params ctlsim.Params) (*Failure, c18Result) {
+	var r c18Result
+	w := world.FromList(objs)
 	cfg, _ := hapcfg.LoadDir(s.CfgDir())
-	ref := refBuild(w, c.Params)
+	ref := refBuild(w, params)
 	ingByName := map[string]*world.Obj{}
 	for _, o := range w.OfKind(world.KIngress) {
 		ingByName[o.FullName()] = o
 	}
-	reqs, _ := requestsFor(c.Objs)
-	reqs, _ = dropAmbiguous(c.Objs, reqs)
-	protectedReqs, unprotectedReqs, incon, dishonoured := 0, 0, 0, 0
-	hasProtected, hasUnprotected := false, false
+	reqs, _ := requestsFor(objs)
+	reqs, _ = dropAmbiguous(objs, reqs)
 	for _, rq := range reqs {
 		host := strings.ToLower(strings.SplitN(rq.Host, ":", 2)[0])
 		if _, declared := ref.Hosts[host]; !declared || (rq.HTTPS && !ref.TLS[host]) {
@@ -147,15 +179,15 @@ func execC18(c WorldCase) *Failure {
 		protected := (hasURL && authURL != "") || hasOAuth
 		res := cfg.Route(rq)
 		if res.Inconclusive() {
-			incon++
+			r.incon++
 			continue
 		}
 		if res.Backend != "" && res.Backend != rule.Back.ID {
 			continue // routing disagreement is C03's business
 		}
 		if protected {
-			hasProtected = true
-			protectedReqs++
+			r.hasProtected = true
+			r.protectedReqs++
 			// oauth proxies' own endpoints are exempt
 			prefix := strings.TrimRight(ing.Ann["oauth-uri-prefix"], "/")
 			if prefix == "" {
@@ -173,7 +205,7 @@ func execC18(c WorldCase) *Failure {
 				if strings.ToLower(ing.Ann["auth-external-placement"]) == "frontend" && hasURL && authURL != "" && rq.Path != rule.Path {
 					// known finding: the frontend condition `-m str <method> '<key>'` is an exact match
 					sig = sigFrontendSubpath
-				} else if strings.ToLower(ing.Ann["auth-external-placement"]) == "frontend" && hasURL && authURL != "" && frontendConflict(w, c.Params, host, ing) {
+				} else if strings.ToLower(ing.Ann["auth-external-placement"]) == "frontend" && hasURL && authURL != "" && frontendConflict(w, params, host, ing) {
 					sig = sigFrontendHostScoped
 				} else if hasOAuth && hasURL {
 					sig = "C18:served-unauthenticated:oauth-with-auth-url"
@@ -181,7 +213,7 @@ func execC18(c WorldCase) *Failure {
 				if knownSkip("C18", sig) {
 					continue
 				}
-				return failf(sig, "request %s matches rule %v of ingress %s (annotations %v) which declares external authentication, but it reaches the servers of %s without deny and without a preceding auth interception; effects: %v\ntrace:\n  %s",
+				return failf2(r, sig, "request %s matches rule %v of ingress %s (annotations %v) which declares external authentication, but it reaches the servers of %s without deny and without a preceding auth interception; effects: %v\ntrace:\n  %s",
 					rq, rule.C04Rule, rule.Ing, ing.Ann, res.Backend, eff, strings.Join(res.Trace, "\n  "))
 			}
 			intercepted := false
@@ -191,7 +223,7 @@ func execC18(c WorldCase) *Failure {
 				}
 			}
 			if !intercepted {
-				dishonoured++
+				r.dishonoured++
 			}
 			continue
 		}
@@ -205,28 +237,71 @@ func execC18(c WorldCase) *Failure {
 		if restricted {
 			continue
 		}
-		hasUnprotected = true
-		unprotectedReqs++
-		if (res.Final != nil && res.Final.Kind == "deny" || len(res.Effects) > 0) && hostHasFrontendPlacement(w, c.Params, host) && knownSkip("C18", sigFrontendHostScoped) {
+		r.hasUnprotected = true
+		r.unprotectedReqs++
+		if (res.Final != nil && res.Final.Kind == "deny" || len(res.Effects) > 0) && hostHasFrontendPlacement(w, params, host) && knownSkip("C18", sigFrontendHostScoped) {
 			continue
 		}
 		if res.Final != nil && res.Final.Kind == "deny" {
-			return failf("C18:unprotected-path-denied", "request %s matches rule %v of ingress %s which declares no authentication, but it is denied by %q", rq, rule.C04Rule, rule.Ing, res.Final.Raw)
+			return failf2(r, "C18:unprotected-path-denied", "request %s matches rule %v of ingress %s which declares no authentication, but it is denied by %q", rq, rule.C04Rule, rule.Ing, res.Final.Raw)
 		}
 		for _, e := range res.Effects {
 			if e.Kind == "lua.auth-intercept" {
-				return failf("C18:unprotected-path-intercepted", "request %s matches rule %v of ingress %s which declares no authentication, but %q applies to it", rq, rule.C04Rule, rule.Ing, e.Raw)
+				return failf2(r, "C18:unprotected-path-intercepted", "request %s matches rule %v of ingress %s which declares no authentication, but %q applies to it", rq, rule.C04Rule, rule.Ing, e.Raw)
 			}
 		}
 	}
+	return nil, r
+}
+
+func failf2(r c18Result, sig, format string, args ...interface{}) (*Failure, c18Result) {
+	return failf(sig, format, args...), r
+}
+
+func execC18(c C18Case) *Failure {
+	st := getStats("C18")
+	w := world.FromList(c.Objs)
+	s, steps, err := freshSim(c.Params, c.Objs)
+	if err != nil {
+		panic(err)
+	}
+	defer s.Close()
+	if e := stepErrors(steps); e != nil {
+		return failf("C18:update-error", "update failed: %v", e)
+	}
+	f, r := c18Eval(s, c.Objs, c.Params)
+	for i, ops := range c.Batches {
+		if f != nil {
+			break
+		}
+		if err := s.Apply(ops); err != nil {
+			panic(fmt.Sprintf("batch %d: %v", i, err))
+		}
+		more := s.Reconcile()
+		if e := stepErrors(more); e != nil {
+			return failf("C18:update-error", "batch %d: update failed: %v", i, e)
+		}
+		w = s.World
+		var r2 c18Result
+		f, r2 = c18Eval(s, s.World.List(), c.Params)
+		if f != nil {
+			f.Msg = fmt.Sprintf("after batch %d of the history: %s", i, f.Msg)
+		}
+		r.protectedReqs += r2.protectedReqs
+		r.unprotectedReqs += r2.unprotectedReqs
+		r.incon += r2.incon
+		r.dishonoured += r2.dishonoured
+		r.hasProtected = r.hasProtected || r2.hasProtected
+		r.hasUnprotected = r.hasUnprotected || r2.hasUnprotected
+	}
 	labels := []string{}
-	if hasProtected {
+	if r.hasProtected {
 		labels = append(labels, "has-protected-path")
 	}
-	if hasProtected && hasUnprotected {
+	if r.hasProtected && r.hasUnprotected {
 		labels = append(labels, "protected-and-unprotected")
 	}
-	if dishonoured > 0 {
+	if r.dishonoured > 0 {
 		labels = append(labels, "declaration-not-honoured->deny")
 	}
 	for _, o := range w.OfKind(world.KIngress) {
@@ -237,13 +312,16 @@ func execC18(c WorldCase) *Failure {
 			labels = append(labels, "oauth")
 		}
 	}
-	st.Case(c, hasProtected && hasUnprotected, dedup(labels)...)
-	st.Count("requests_protected", protectedReqs)
-	st.Count("requests_unprotected", unprotectedReqs)
-	st.Count("requests_denied_because_unusable", dishonoured)
-	st.Count("requests_inconclusive", incon)
+	if len(c.Batches) > 0 {
+		labels = append(labels, "with-history")
+	}
+	st.Case(c, r.hasProtected && r.hasUnprotected, dedup(labels)...)
+	st.Count("requests_protected", r.protectedReqs)
+	st.Count("requests_unprotected", r.unprotectedReqs)
+	st.Count("requests_denied_because_unusable", r.dishonoured)
+	st.Count("requests_inconclusive", r.incon)
 	_ = fmt.Sprint
-	return nil
+	return f
 }
 
 func init() { registerReplay("C18", execC18) }
